@@ -31,18 +31,13 @@ AlphaQ ==
         MTop("get", "me", "desc", "none"), MTop("get", "me", "desc", "valid"),
         MTop("leave", "grp", "none", "none"), MTop("note", "grp", "read", "none")}
 AlphaT == AlphaQ
-  \cup {MHi("old"), MHi("empty")}
-  \cup {MLogin("basic", s) : s \in {"rightroot", "expired", "suspended", "deleted", "malformed", "nouser"}}
-  \cup {MLogin("token", s) : s \in {"wrong", "suspended", "needscred", "malformed"}}
-  \cup {MLogin("reset", "malformed")}
-  \cup {MAcc("new", "F", "basic", "none", "F", "none"), MAcc("new", "F", "basic", "none", "T", "lvl"),
-        MAcc("other", "F", "basic", "none", "F", "none"), MAcc("self", "F", "basic", "tokW", "F", "none"),
+  \cup {MHi("old")}
+  \cup {MLogin("basic", s) : s \in {"rightroot", "expired", "malformed"}}
+  \cup {MLogin("token", s) : s \in {"wrong", "needscred"}}
+  \cup {MAcc("new", "F", "basic", "none", "F", "none"), MAcc("other", "F", "basic", "none", "F", "none"),
         MAcc("self", "F", "basic", "unknown", "F", "none")}
-  \cup {MTop("sub", "usr", "none", "none"), MTop("sub", "new", "none", "none"), MTop("sub", "sys", "none", "none"),
-        MTop("sub", "nogrp", "none", "none"), MTop("sub", "me", "none", "validroot"), MTop("leave", "me", "unsub", "none"),
-        MTop("leave", "grp", "none", "valid"), MTop("pub", "sys", "forged", "none"), MTop("pub", "grp", "forged", "bad"),
-        MTop("get", "grp", "data", "none"), MTop("set", "grp", "tags", "none"), MTop("del", "grp", "msg", "none"), MTop("set", "me", "desc", "lvl"),
-        MTop("del", "grp", "topic", "none"), MTop("note", "me", "kp", "none"), MTop("note", "grp", "read", "valid")}
+  \cup {MTop("sub", "usr", "none", "none"), MTop("sub", "sys", "none", "none"), MTop("leave", "grp", "none", "valid"),
+        MTop("del", "grp", "topic", "none"), MTop("set", "me", "desc", "lvl")}
 AlphaSet == CASE AlphaName = "q" -> AlphaQ [] AlphaName = "t" -> AlphaT [] OTHER -> AllMsgs
 \* Messages are addressed by index in the printed histories.  TLC re-evaluates a definition that depends on a declared
 \* CONSTANT at every use; the sequence is therefore computed once (an ASSUME sets the register for every worker).
